@@ -128,7 +128,6 @@ def noCombinator (a : JAttrs) : Bool :=
   a.ref.isNone && !a.hasOneOf && !a.hasAnyOf && !a.hasAllOf && a.enum.isNone
 
 def addlIsSchema : JAddl → Bool | .schema _ => true | _ => false
-def addlIsNone : JAddl → Bool | .none => true | _ => false
 
 /-- `walkDefinition` reaches `walkObject` -/
 def objectPath (a : JAttrs) (addl : JAddl) : Bool :=
